@@ -36,4 +36,5 @@ def run(idx, rep, tier):
     misc2.r_basisguard(idx, rep)
     misc2.r_adjacency(idx, rep)
     misc2.r_dupcond(idx, rep, [m.name for m in idx.lib_modules()], floor=3)
+    misc2.r_shortcuts(idx, rep)
     unpack.r_unpack(idx, rep, floor=1)
